@@ -22,6 +22,7 @@ import (
 
 const (
 	ControlPod   = "ctl-0"
+	ControlPod2  = "ctl2-0"
 	ControlNode  = "ctl-node"
 	ControlQueue = "ctl-q"
 )
@@ -54,6 +55,16 @@ func AddControl(c *spec.Case) {
 			Tolerations: []v1.Toleration{{Key: "verif/ctl", Operator: v1.TolerationOpExists}},
 			Containers:  []v1.Container{{Name: "main", Image: "img", Resources: v1.ResourceRequirements{Requests: v1.ResourceList{v1.ResourceCPU: mq(100), v1.ResourceMemory: q(64 << 20)}}}}},
 		Status: v1.PodStatus{Phase: v1.PodPending}})
+	// a second, younger control workload in the same queue: once the first one is allocated the queue has a share and
+	// goes behind the queues that hold nothing yet, so this one is attempted AFTER the jobs of the other (possibly
+	// malformed) queues in the same action
+	pg2 := c.Objects.PodGroups[len(c.Objects.PodGroups)-1].DeepCopy()
+	pg2.Name, pg2.UID, pg2.CreationTimestamp = "pg-ctl2", "pgu-ctl2", metav1.NewTime(now.Add(-time.Minute))
+	p2 := c.Objects.Pods[len(c.Objects.Pods)-1].DeepCopy()
+	p2.Name, p2.UID, p2.CreationTimestamp = ControlPod2, "uid-ctl2-0", metav1.NewTime(now.Add(-time.Minute))
+	p2.Annotations["pod-group-name"] = "pg-ctl2"
+	c.Objects.PodGroups = append(c.Objects.PodGroups, pg2)
+	c.Objects.Pods = append(c.Objects.Pods, p2)
 	LabelForNodePool(c)
 }
 
@@ -394,6 +405,38 @@ func Hostile(c *spec.Case, r *rand.Rand, n int) []string {
 			}
 			return true
 		}},
+		{"topology-constraint-unknown-level-or-topology", func() bool {
+			// pod groups (pending ones first) whose constraint names an existing Topology but a level it does not have,
+			// as required or preferred level, on the group or on a sub-group; or a Topology that does not exist
+			if len(o.Topologies) == 0 || len(o.PodGroups) == 0 {
+				return false
+			}
+			done := 0
+			for _, pg := range o.PodGroups {
+				if done >= 2 || r.IntN(3) != 0 {
+					continue
+				}
+				tc := enginev2alpha2.TopologyConstraint{Topology: o.Topologies[pick(len(o.Topologies))].Name}
+				if r.IntN(6) == 0 {
+					tc.Topology = "no-such-topology"
+				}
+				switch r.IntN(3) {
+				case 0:
+					tc.PreferredTopologyLevel = "no-such-level"
+				case 1:
+					tc.RequiredTopologyLevel = "no-such-level"
+				default:
+					tc.PreferredTopologyLevel, tc.RequiredTopologyLevel = "no-such-level", "kubernetes.io/hostname"
+				}
+				if len(pg.Spec.SubGroups) > 0 && r.IntN(2) == 0 {
+					pg.Spec.SubGroups[pick(len(pg.Spec.SubGroups))].TopologyConstraint = &tc
+				} else {
+					pg.Spec.TopologyConstraint = tc
+				}
+				done++
+			}
+			return done > 0
+		}},
 		{"pod-running-without-node-or-on-missing-node", func() bool {
 			done := false
 			for _, p := range o.Pods {
@@ -501,6 +544,47 @@ func Hostile(c *spec.Case, r *rand.Rand, n int) []string {
 					pg.Annotations = map[string]string{}
 				}
 				pg.Annotations["kai.scheduler/stale-podgroup-timestamp"] = "2020-01-01T00:00:00Z"
+				return true
+			}
+			return false
+		}},
+		{"running-workload-subgroups-without-minimum", func() bool {
+			// a RUNNING workload gets two leaf sub-groups that omit minMember (0 passes the CRD schema) or carry a
+			// negative one: the running pods are in the first, the second is empty or holds one pending pod and sorts
+			// after it. Victim selection (reclaim, preempt, consolidation) then has to take tasks from a job whose pod
+			// sets have no minimum
+			for _, pg := range o.PodGroups {
+				var running []*v1.Pod
+				for _, p := range o.Pods {
+					if p.Annotations["pod-group-name"] == pg.Name && p.Spec.NodeName != "" && p.DeletionTimestamp == nil && p.Status.Phase == v1.PodRunning {
+						running = append(running, p)
+					}
+				}
+				if len(running) == 0 || len(pg.Spec.SubGroups) > 0 || r.IntN(2) == 0 {
+					continue
+				}
+				vals := []int32{0, 0, 0, -1}
+				pg.Spec.SubGroups = []enginev2alpha2.SubGroup{{Name: "a-workers", MinMember: vals[pick(len(vals))]}, {Name: "z-spare", MinMember: vals[pick(len(vals))]}}
+				for _, p := range running {
+					if p.Labels == nil {
+						p.Labels = map[string]string{}
+					}
+					p.Labels["kai.scheduler/subgroup-name"] = "a-workers"
+				}
+				if r.IntN(2) == 0 {
+					spare := running[0].DeepCopy()
+					spare.Name, spare.UID = running[0].Name+"-spare", running[0].UID+"-spare"
+					spare.Spec.NodeName, spare.Status = "", v1.PodStatus{Phase: v1.PodPending}
+					spare.Labels["kai.scheduler/subgroup-name"] = "z-spare"
+					spare.Annotations[spec.LogicalNameAnno] = spare.Name
+					for k := range spare.Labels {
+						if k == "runai-gpu-group" || len(k) > 16 && k[:16] == "runai-gpu-group/" {
+							delete(spare.Labels, k)
+						}
+					}
+					delete(spare.Annotations, "received-resource-type")
+					o.Pods = append(o.Pods, spare)
+				}
 				return true
 			}
 			return false
